@@ -1,7 +1,9 @@
 (* C12  enum codecs accept exactly the declared names; Parse helpers agree.
 
-   With -json / -text / -sql the enum marshals to its String() name and
-   unmarshals only from a declared (trimmed) name; any other input is an error
+   With -json / -text / -sql the enum marshals to its String() name (the trimmed
+   first declared name of the value, first_name -- the constant's own name unless
+   an alias of the value is declared before it) and unmarshals only from a
+   declared (trimmed) name, aliases included; any other input is an error
    and leaves the target unchanged; decode(encode(c)) = c for every declared
    constant.  shoot.ParseEnum / TryParseEnum / IsEnum agree with the generated
    ValueMap() / Values().
@@ -35,7 +37,8 @@ Theorem C12_json_codec :
   forall p T fl g tgt,
   enum_guard p T = true -> generate p T fl = Some g ->
   (forall n v, In (n, v) (declared T p) ->
-     marshal_json (const_env p) g jenc v = jenc (trim_prefix n T)
+     (exists n1, first_name (declared T p) v = Some n1
+                 /\ marshal_json (const_env p) g jenc v = jenc (trim_prefix n1 T))
      /\ unmarshal_json (const_env p) g jdec (marshal_json (const_env p) g jenc v) tgt = (None, v))
   /\ (forall data, jdec data = None ->
         unmarshal_json (const_env p) g jdec data tgt = (Some ENotString, tgt))
@@ -50,8 +53,10 @@ Print Assumptions C12_json_codec.
 Theorem C12_text_codec : forall p T fl g tgt,
   enum_guard p T = true -> generate p T fl = Some g ->
   (forall n v, In (n, v) (declared T p) ->
-     marshal_text (const_env p) g v = trim_prefix n T
-     /\ unmarshal_text (const_env p) g (marshal_text (const_env p) g v) tgt = (None, v))
+     (exists n1, first_name (declared T p) v = Some n1
+                 /\ marshal_text (const_env p) g v = trim_prefix n1 T)
+     /\ unmarshal_text (const_env p) g (marshal_text (const_env p) g v) tgt = (None, v)
+     /\ unmarshal_text (const_env p) g (trim_prefix n T) tgt = (None, v))
   /\ (forall s, ~ declared_name p T s ->
         unmarshal_text (const_env p) g s tgt = (Some ENotFound, tgt)).
 Proof. exact P_text_codec. Qed.
@@ -63,7 +68,9 @@ Print Assumptions C12_text_codec.
 Theorem C12_sql_codec : forall p T fl g tgt,
   enum_guard p T = true -> generate p T fl = Some g ->
   (forall n v, In (n, v) (declared T p) ->
-     sql_value (const_env p) g v = SStr (trim_prefix n T)
+     (exists n1, first_name (declared T p) v = Some n1
+                 /\ sql_value (const_env p) g v = SStr (trim_prefix n1 T)
+                 /\ scan (const_env p) g (SBytes (trim_prefix n1 T)) tgt = (None, v))
      /\ scan (const_env p) g (SBytes (trim_prefix n T)) tgt = (None, v))
   /\ (forall s, ~ declared_name p T s ->
         scan (const_env p) g (SBytes s) tgt = (Some ENotFound, tgt))
